@@ -356,6 +356,7 @@ type Query struct {
 	Goal  *Term
 	NIA   bool
 	Extra []string // raw SMT-LIB assertions (axiom instances)
+	Comm   bool
 }
 
 func (q *Query) smtlib() string {
@@ -375,6 +376,10 @@ func (q *Query) smtlib() string {
 	}
 	for _, n := range r.declOrd {
 		b.WriteString(r.decls[n] + "\n")
+	}
+	if _, ok := r.decls["fmuli"]; ok && q.Comm {
+		// integer limb products are products: commutative (needed when aliased operands make a_i = b_i)
+		b.WriteString("(assert (forall ((x Int) (y Int)) (! (= (fmuli x y) (fmuli y x)) :pattern ((fmuli x y)))))\n")
 	}
 	for _, s := range r.sideOrd {
 		b.WriteString("(assert " + s + ")\n")
